@@ -439,7 +439,7 @@ def gen_compress_consts(bdir):
 class C07(Prop):
     id = "C07"
     title = "calls reach the right function and respect visibility, whatever came before"
-    lean_modules = ["NV.C07.Props", "NV.C07.Witness", "NV.C07.OracleTests", "NV.C07.LemmasCompress", "NV.C07.Tie", "NV.C07.LemmasBinary", "NV.C07.LemmasBuild3", "NV.C07.LemmasBinary2", "NV.C07.LemmasArgs"]
+    lean_modules = ["NV.C07.Props", "NV.C07.Witness", "NV.C07.OracleTests", "NV.C07.LemmasCompress", "NV.C07.Tie", "NV.C07.LemmasBinary", "NV.C07.LemmasBuild3", "NV.C07.LemmasBinary2", "NV.C07.LemmasArgs", "NV.C07.LemmasFrames"]
     theorems = ["NV.C07.visibility_table", "NV.C07.visibility_any_flags", "NV.C07.visibility_lifted",
                 "NV.C07.driver_origins_never_refused", "NV.C07.bsearch_correct", "NV.C07.find_function_correct",
                 "NV.C07.find_offsets_are_path_sums", "NV.C07.cache_transparent_step", "NV.C07.cache_transparent",
@@ -452,7 +452,8 @@ class C07(Prop):
                 "NV.C07.permute_slot_entry", "NV.C07.permute_ft_mem", "NV.C07.permute_keeps_rest", "NV.C07.sortIdx_isPerm",
                 "NV.C07.resort_slot_entry", "NV.C07.inversePerm_getElem", "NV.C07.built_fio_sorted",
                 "NV.C07.cmp_literals_are_source", "NV.C07.resort_sorted", "NV.C07.sortIdx_pairwise",
-                "NV.C07.setupVariables_length", "NV.C07.setupVariables_get", "NV.C07.setupVariables_is_spec"]
+                "NV.C07.setupVariables_length", "NV.C07.setupVariables_get", "NV.C07.setupVariables_is_spec",
+                "NV.C07.every_frame_sees_its_own_block", "NV.C07.calleeOf_entered", "NV.C07.applyLow_call_is_find"]
     witness_theorems = ["NV.C07.Witness.old_cache_not_transparent", "NV.C07.Witness.origin_stored_once_runs_static",
                         "NV.C07.Witness.old_compress_overflow_branch_loses_entries",
                         "NV.C07.Witness.temp_instead_of_inverse_misdispatches"]
